@@ -628,6 +628,47 @@ fn d19b() -> R {
     }
     Ok(())
 }
+/// D20: a block marked as snappy declares its uncompressed length in its first bytes; the decoder
+/// allocates that much up front. A 5-byte block claiming 4 GiB made `Table::new` / `get` request 4 GiB:
+/// with limited memory the process aborts. Run with the address space limited to 1 GiB.
+fn d20() -> R {
+    unsafe {
+        let lim = libc::rlimit { rlim_cur: 1 << 30, rlim_max: 1 << 30 };
+        libc::setrlimit(libc::RLIMIT_AS, &lim);
+    }
+    let bomb = vec![0xffu8, 0xff, 0xff, 0xff, 0x0f];
+    // (1) the bomb as the index block (and metaindex block) of a 58-byte file
+    let mut f = raw_block(&bomb, 1);
+    let h = handle(0, bomb.len());
+    let mut foot = h.clone();
+    foot.extend_from_slice(&h);
+    foot.resize(40, 0);
+    foot.extend_from_slice(&[0x57, 0xfb, 0x80, 0x8b, 0x24, 0x75, 0x47, 0xdb]);
+    f.extend_from_slice(&foot);
+    let n = f.len();
+    if Table::new(Options::default(), Box::new(f), n).is_ok() {
+        return Err("a table whose index block is a 5-byte snappy stream claiming 4 GiB opens".into());
+    }
+    // (2) the bomb as a data block of an otherwise valid table: get / scan must report an error, not abort
+    let good = simple_block(&[e(b"x", b"1")]);
+    let mut f = vec![];
+    let h0 = handle(0, bomb.len());
+    f.extend_from_slice(&raw_block(&bomb, 1));
+    let h1 = handle(f.len(), good.len());
+    f.extend_from_slice(&raw_block(&good, 0));
+    let mc = simple_block(&[]);
+    let mh = handle(f.len(), mc.len());
+    f.extend_from_slice(&raw_block(&mc, 0));
+    let ic = simple_block(&[(b"m".to_vec(), h0), (b"y".to_vec(), h1)]);
+    let ih = handle(f.len(), ic.len());
+    f.extend_from_slice(&raw_block(&ic, 0));
+    let mut foot = mh;
+    foot.extend_from_slice(&ih);
+    foot.resize(40, 0);
+    foot.extend_from_slice(&[0x57, 0xfb, 0x80, 0x8b, 0x24, 0x75, 0x47, 0xdb]);
+    f.extend_from_slice(&foot);
+    exercise(f, &[b"a", b"x", b"z"])
+}
 
 // ---- format-inherent findings (open): expected to be VIOLATED, listed in known_findings.txt ------
 /// like raw_table, but every handle is shifted by `base` (the table will sit at offset `base` of a larger file)
@@ -836,6 +877,7 @@ const ALL: &[(&str, &str, fn() -> R)] = &[
     ("D18d-malformed-filter-block", "C08", d18d),
     ("D19a-bloom-reader-512mib-filter", "C08", d19a),
     ("D19b-bloom-writer-2pow32-bits", "C09", d19b),
+    ("D20-snappy-length-bomb", "C08", d20),
     ("F1-embedded-table-prefix", "C15", f1),
     ("F2-crc-collision", "C07", f2),
     ("F3-footer-handles-swapped", "C07", f3),
